@@ -58,6 +58,7 @@ type CheckSpec struct {
 	TimeoutS    map[string]int    `json:"timeout_s"`
 	StubPkgs    []string          `json:"stub_pkgs"`
 	Models      map[string]string `json:"models"`
+	Generated   map[string]string `json:"generated"` // virtual path -> generator name
 }
 
 type Engine2 struct{}
@@ -113,6 +114,39 @@ func main() {
 	}
 }
 
+func absVerif(p string) string {
+	if filepath.IsAbs(p) {
+		return p
+	}
+	return filepath.Join(verifDir, p)
+}
+
+// runGenerators writes generated harness sources into the work dir and adds them to the overlay.
+func runGenerators(cs *CheckSpec, work string) error {
+	for virt, gen := range cs.Generated {
+		var data []byte
+		var err error
+		switch gen {
+		case "hookcompose":
+			data, err = genHookCompose(repoDir)
+		default:
+			err = fmt.Errorf("unknown generator %q", gen)
+		}
+		if err != nil {
+			return err
+		}
+		out := filepath.Join(work, "gen_"+sanitize(virt)+".go")
+		if err := os.WriteFile(out, data, 0o644); err != nil {
+			return err
+		}
+		if cs.Files == nil {
+			cs.Files = map[string]string{}
+		}
+		cs.Files[virt] = out
+	}
+	return nil
+}
+
 func loadSpec(path string) *CheckSpec {
 	data, err := os.ReadFile(path)
 	if err != nil {
@@ -152,7 +186,7 @@ func loadKnown(property string) []*KnownFinding {
 func loadProgram(cs *CheckSpec) (*ssa.Program, map[string]*ssa.Package, error) {
 	overlay := map[string][]byte{}
 	add := func(virt, real string) error {
-		data, err := os.ReadFile(filepath.Join(verifDir, real))
+		data, err := os.ReadFile(absVerif(real))
 		if err != nil {
 			return err
 		}
@@ -260,6 +294,13 @@ func cmdCheck(args []string) int {
 	cs := loadSpec(*specPath)
 	known := loadKnown(cs.Property)
 
+	work := filepath.Join(verifDir, ".work", fmt.Sprintf("run-%d", os.Getpid()))
+	os.MkdirAll(work, 0o755)
+	defer os.RemoveAll(work)
+	if err := runGenerators(cs, work); err != nil {
+		fmt.Printf("INCONCLUSIVE property=%s reason=generator failed: %v\n", cs.Property, err)
+		return 2
+	}
 	prog, pkgs, err := loadProgram(cs)
 	if err != nil {
 		fmt.Println(err)
@@ -418,9 +459,6 @@ func cmdCheck(args []string) int {
 	}
 
 	// ---- native replay: violations, known findings, witnesses ----
-	work := filepath.Join(verifDir, ".work", fmt.Sprintf("run-%d", os.Getpid()))
-	os.MkdirAll(work, 0o755)
-	defer os.RemoveAll(work)
 	replayed, replayOK := 0, 0
 	confirmed := map[*Violation]bool{}
 	if !*noReplay {
